@@ -277,6 +277,13 @@ def gen_formats(I, ctx):
             singles.append(("frame_rate_preset", lambda v, fr=fr: v.__setitem__(slice(5, 7), fr)))
         for k in range(ctx.pick(2, 5)):
             singles.append(("frame_rate_custom", p_custom_fr))
+        # unreduced ratios equal in value to a preset / to the base format's own ratio: must be coded explicitly
+        unred = [(k * a, k * b) for (a, b) in frs for k in (2, 3, 10)]
+        for fr in (unred if not ctx.quick else rng.sample(unred, 6)) + [(2 * base[5], 2 * base[6]), (7 * base[5], 7 * base[6])]:
+            singles.append(("frame_rate_unreduced", lambda v, fr=fr: v.__setitem__(slice(5, 7), fr)))
+        unred = [(k * a, k * b) for (a, b) in pars for k in (2, 3, 11)]
+        for p in (unred if not ctx.quick else rng.sample(unred, 4)) + [(2 * base[7], 2 * base[8]), (5 * base[7], 5 * base[8])]:
+            singles.append(("par_unreduced", lambda v, p=p: v.__setitem__(slice(7, 9), p)))
         for p in pars:
             singles.append(("par_preset", lambda v, p=p: v.__setitem__(slice(7, 9), p)))
         for k in range(ctx.pick(1, 4)):
@@ -548,7 +555,7 @@ def run(ctx):
     I = impl()
     ctx.extra["rule"] = (
         "formats near each of the 23 base video formats at level 0: every single-group perturbation (frame size, each colour "
-        "difference format, scan, top-field-first, every preset and custom frame rate / aspect ratio / signal range, clean areas, "
+        "difference format, scan, top-field-first, every preset and custom frame rate / aspect ratio / signal range, unreduced ratios equal to presets and to the base format's own, clean areas, "
         "every colour spec preset and primaries x matrix x transfer function combinations) plus random multi-group ones, both "
         "picture coding modes; formats admitted by each column of the real level table (levels 1-7, 64-66). Every header of "
         "iter_sequence_headers (bounded per format for the oracle, all of them for the Coq cases) is serialised and validated. "
